@@ -52,18 +52,36 @@ def main():
     log = lambda *a: print("[%s %6.1fs]" % (prop, time.time() - ctx.t0), *a, flush=True)
 
     # ---- 1. GEN --------------------------------------------------------------
+    # The generated tables, the proofs built over them and the model drivers compiled from them must all belong to
+    # THIS tree for the whole run.  Checks of the same tree share build/tree.lock; a check whose tree generates
+    # different tables takes it exclusively, regenerates and rebuilds, then re-enters shared and re-verifies.
+    import fcntl
     gen_info = {}
-    genprove = common.flock("genprove")
-    genprove.__enter__()   # the regenerated tables must not change between GEN and the build that checks them
-    try:
-        if getattr(mod, "GEN", True):
-            import extract
+    common.BUILD.mkdir(exist_ok=True)
+    treelock = open(common.BUILD / "tree.lock", "w")
+    ctx._treelock = treelock          # held (shared) until the process exits
+    import extract
+    for attempt in range(20):
+        fcntl.flock(treelock, fcntl.LOCK_SH)
+        if not getattr(mod, "GEN", True):
+            gen_info = {"summary": "not used by this property"}
+            break
+        dry = extract.generate(dry=True)
+        if not dry["changed"]:
+            gen_info = dry
+            break
+        fcntl.flock(treelock, fcntl.LOCK_UN)
+        fcntl.flock(treelock, fcntl.LOCK_EX)
+        try:
             gen_info = extract.generate()
-            log("GEN: %s" % gen_info.get("summary", "ok"))
-        ctx.gen = gen_info
-        ok, out = common.lake_build([mod.MODULE] + list(mod.EXES))
-    finally:
-        genprove.__exit__(None, None, None)
+            common.lake_build([mod.MODULE] + list(mod.EXES))
+        finally:
+            fcntl.flock(treelock, fcntl.LOCK_UN)
+    else:
+        raise InfraError("could not obtain a stable set of generated tables (another tree keeps regenerating them)")
+    log("GEN: %s" % gen_info.get("summary", "ok"))
+    ctx.gen = gen_info
+    ok, out = common.lake_build([mod.MODULE] + list(mod.EXES))
 
     # ---- 2. PROVE ------------------------------------------------------------
     broken = []          # names of theorems / obligations that no longer check
